@@ -44,6 +44,13 @@ pub struct Case {
     /// index: save_all | flush_all | flush_bucket ; residency: save ; lru: checkpoint | bump_checkpoint | shutdown ; diskcache: put
     pub save: String,
     pub cap: u32,
+    /// S_old is established, the object is dropped and LOADED BACK from disk, and only then mutated and
+    /// saved under the recorder (a save by an instance that did not create the files)
+    #[serde(default)]
+    pub reloaded: bool,
+    /// residency / lru: nothing was ever saved before the save under test (S_old = "no file yet")
+    #[serde(default)]
+    pub no_old: bool,
 }
 
 fn idx_key(i: usize) -> [u8; 16] {
@@ -56,8 +63,11 @@ fn idx_key(i: usize) -> [u8; 16] {
     k
 }
 fn idx_bucket(k: &[u8]) -> u8 {
-    let h = k[..9].iter().fold(0u8, |a, b| a ^ b);
-    (h & 0x0F) ^ (h >> 4)
+    // the library's own (public) mapping, not a copy of it
+    let mut full = [0u8; 16];
+    full[..k.len().min(16)].copy_from_slice(&k[..k.len().min(16)]);
+    let _ = |h: u8| (h & 0x0F) ^ (h >> 4);
+    IndexManager::bucket_for_key(&EncodingKey::from_bytes(full))
 }
 fn burst_key(c: u32) -> [u8; 16] {
     let mut k = idx_key(0);
@@ -73,6 +83,18 @@ fn res_key(i: usize) -> [u8; 16] {
     let mut k = [0x42u8; 16];
     k[0] = i as u8 + 1;
     k[15] = (i as u8).wrapping_mul(17);
+    k
+}
+/// Residency keys that all fall into one bucket (every varying byte appears twice, so the XOR fold is
+/// constant): more than 25 of them spill into a second page.
+fn res_burst_key(c: u32) -> [u8; 16] {
+    let mut k = [0u8; 16];
+    k[0] = c as u8;
+    k[1] = c as u8;
+    k[2] = (c >> 8) as u8;
+    k[3] = (c >> 8) as u8;
+    k[4] = 0xB5;
+    k[15] = 0x21;
     k
 }
 fn lru_key(i: usize) -> [u8; 9] {
@@ -149,7 +171,9 @@ impl Scenario for Crash {
                             7..=8 => M::Remove { k },
                             _ => M::Burst { n: *rng.pick(&[3u32, 30, 400, 1300]) },
                         },
-                        "residency" => M::Mark { k, res: rng.chance(65, 100) },
+                        "residency" => {
+                            if rng.chance(1, 8) { M::Burst { n: *rng.pick(&[20u32, 30, 60]) } } else { M::Mark { k, res: rng.chance(65, 100) } }
+                        }
                         "lru" => match rng.below(10) {
                             0..=7 => M::Touch { k },
                             8 => M::Remove { k },
@@ -176,7 +200,9 @@ impl Scenario for Crash {
                 "put"
             }
         };
-        Case { obj: obj.to_string(), pre, post, save: save.to_string(), cap: rng.range(2, 5) as u32 }
+        // LRU tables of up to 64 slots give checkpoint files of several 512-byte pages
+        let cap = if obj == "lru" && rng.chance(1, 3) { *rng.pick(&[20u32, 40, 64]) } else { rng.range(2, 5) as u32 };
+        Case { obj: obj.to_string(), pre, post, save: save.to_string(), cap, reloaded: rng.chance(1, 3), no_old: (obj == "residency" || obj == "lru") && rng.chance(1, 6) }
     }
 
     fn execute(&self, case: &Case, ctx: &mut Ctx) -> Option<Violation> {
@@ -276,6 +302,13 @@ async fn run(case: &Case, ctx: &mut Ctx) -> Option<Violation> {
             if let Err(e) = mgr.save_all() {
                 panic!("harness: establishing S_old failed: {e}");
             }
+            if case.reloaded {
+                mgr = IndexManager::new(&work);
+                if let Err(e) = mgr.load_all().await {
+                    panic!("harness: loading S_old back failed: {e}");
+                }
+                ctx.count("saves_by_a_reloaded_instance");
+            }
             for m in &case.post {
                 if let Err(e) = apply(&mut mgr, &mut model, &mut burst, m) {
                     panic!("harness: mutation failed: {e}");
@@ -359,25 +392,51 @@ async fn run(case: &Case, ctx: &mut Ctx) -> Option<Violation> {
             let path = work.join("key_state_v8");
             let mut db = ResidencyDb::new(path.clone());
             let mut model: BTreeMap<[u8; 16], bool> = BTreeMap::new();
-            // make sure S_old exists on disk
-            db.mark_resident(&res_key(100));
-            model.insert(res_key(100), true);
-            for m in &case.pre {
-                if let M::Mark { k, res } = m {
+            let mut burst = 0u32;
+            let mut apply = |db: &mut ResidencyDb, model: &mut BTreeMap<[u8; 16], bool>, m: &M| match m {
+                M::Mark { k, res } => {
                     if *res { db.mark_resident(&res_key(*k)) } else { db.mark_non_resident(&res_key(*k)) }
                     model.insert(res_key(*k), *res);
                 }
-            }
-            if let Err(e) = db.save() {
-                panic!("harness: establishing S_old failed: {e}");
+                M::Burst { n } => {
+                    for c in burst..burst + *n {
+                        db.mark_resident(&res_burst_key(c));
+                        model.insert(res_burst_key(c), true);
+                    }
+                    burst += *n;
+                }
+                _ => {}
+            };
+            if case.no_old {
+                // nothing has ever been saved: S_old is "no file yet"
+                ctx.count("first_ever_saves");
+            } else {
+                // make sure S_old exists on disk
+                db.mark_resident(&res_key(100));
+                model.insert(res_key(100), true);
+                for m in &case.pre {
+                    apply(&mut db, &mut model, m);
+                }
+                if let Err(e) = db.save() {
+                    panic!("harness: establishing S_old failed: {e}");
+                }
+                if case.reloaded {
+                    db = match ResidencyDb::load(&path) {
+                        Ok(d) => d,
+                        Err(e) => panic!("harness: loading S_old back failed: {e}"),
+                    };
+                    ctx.count("saves_by_a_reloaded_instance");
+                }
             }
             let old = model.clone();
             base = Fs::snapshot(&work);
             for m in &case.post {
-                if let M::Mark { k, res } = m {
-                    if *res { db.mark_resident(&res_key(*k)) } else { db.mark_non_resident(&res_key(*k)) }
-                    model.insert(res_key(*k), *res);
-                }
+                apply(&mut db, &mut model, m);
+            }
+            if model == old {
+                // the save under test must have something to write
+                db.mark_resident(&res_key(150));
+                model.insert(res_key(150), true);
             }
             seams::disk_record(true);
             let r = db.save();
@@ -398,6 +457,13 @@ async fn run(case: &Case, ctx: &mut Ctx) -> Option<Violation> {
                     let is_new = got == view(&new);
                     if !is_new && got != view(&old) {
                         return Err(("mixed_state".to_string(), format!("after recovery the residency of {} keys matches neither S_old nor S_new", keys.len())));
+                    }
+                    // the enumeration must tell the same story as the per-key lookups (no phantom entries)
+                    let mut scan = db.scan_keys();
+                    scan.sort_unstable();
+                    let want: Vec<[u8; 16]> = (if is_new { &new } else { &old }).iter().filter(|(_, r)| **r).map(|(k, _)| *k).collect();
+                    if scan != want {
+                        return Err(("mixed_state".to_string(), format!("after recovery scan_keys() yields {} keys although per-key lookups match S_{} with {} resident keys", scan.len(), if is_new { "new" } else { "old" }, want.len())));
                     }
                     let fresh = res_key(201);
                     db.mark_resident(&fresh);
@@ -438,17 +504,32 @@ async fn run(case: &Case, ctx: &mut Ctx) -> Option<Violation> {
                 }
                 _ => {}
             };
-            apply(&mut lru, &mut model, &M::Touch { k: 9 });
-            for m in &case.pre {
-                apply(&mut lru, &mut model, m);
-            }
-            if let Err(e) = lru.checkpoint_to_disk().await {
-                panic!("harness: establishing S_old failed: {e}");
+            if case.no_old {
+                ctx.count("first_ever_saves");
+            } else {
+                apply(&mut lru, &mut model, &M::Touch { k: 9 });
+                for m in &case.pre {
+                    apply(&mut lru, &mut model, m);
+                }
+                if let Err(e) = lru.checkpoint_to_disk().await {
+                    panic!("harness: establishing S_old failed: {e}");
+                }
+                if case.reloaded {
+                    // a restart: a fresh manager that loads the latest checkpoint
+                    lru = LruManager::new(cap, work.clone());
+                    if let Err(e) = lru.run_cycle(0, 0).await {
+                        panic!("harness: restarting on S_old failed: {e}");
+                    }
+                    ctx.count("saves_by_a_reloaded_instance");
+                }
             }
             let old: Vec<[u8; 9]> = model.iter().copied().collect();
             base = Fs::snapshot(&work);
             for m in &case.post {
                 apply(&mut lru, &mut model, m);
+            }
+            if case.no_old && model.is_empty() {
+                apply(&mut lru, &mut model, &M::Touch { k: 3 });
             }
             seams::disk_record(true);
             let r = match case.save.as_str() {
@@ -506,6 +587,16 @@ async fn run(case: &Case, ctx: &mut Ctx) -> Option<Violation> {
                     model.insert(*k, v);
                 }
             }
+            let cache = if case.reloaded {
+                drop(cache);
+                ctx.count("saves_by_a_reloaded_instance");
+                match mk(&work) {
+                    Ok(c) => c,
+                    Err(e) => panic!("harness: cannot re-create the disk cache: {e}"),
+                }
+            } else {
+                cache
+            };
             let old = model.clone();
             base = Fs::snapshot(&work);
             let Some(M::Put { k, len }) = case.post.first() else { return None };
@@ -525,6 +616,9 @@ async fn run(case: &Case, ctx: &mut Ctx) -> Option<Violation> {
                 let img = img.to_path_buf();
                 Box::pin(async move {
                     let c = DiskCache::<SimKey>::new(DiskCacheConfig::new(img.clone()).with_subdirectories(sub, 1)).map_err(|e| ("recover_failed".to_string(), format!("opening a cache on the crash image failed: {e}")))?;
+                    // a leftover temporary file is not an entry: the fresh instance's size() (a directory scan) counts
+                    // what can be retrieved - the untouched keys plus the written key if it has a value
+                    let reported = c.size().await.map_err(|e| ("recover_failed".to_string(), format!("size() on the crash image failed: {e}")))?;
                     // untouched keys keep their values
                     for (ok, ov) in &old {
                         if *ok == k {
@@ -547,7 +641,11 @@ async fn run(case: &Case, ctx: &mut Ctx) -> Option<Violation> {
                             ));
                         }
                     };
-                    // usable: a further put is served, temp files are not counted
+                    let retrievable = old.keys().filter(|ok| **ok != k).count() + usize::from(got.is_some());
+                    if reported != retrievable {
+                        return Err(("mixed_state".to_string(), format!("a fresh cache on the crash image reports size() = {reported} but {retrievable} keys are retrievable (a leftover temporary file counted as an entry?)")));
+                    }
+                    // usable: a further put is served
                     let v3 = super::payload(0xABCD, 33);
                     c.put(SimKey::n(k), Bytes::from(v3.clone())).await.map_err(|e| ("unusable_after_recovery".to_string(), format!("put on the recovered cache failed: {e}")))?;
                     match c.get(&SimKey::n(k)).await {
